@@ -352,7 +352,15 @@ def rule_g(ctx, out):
         raise AnalysisError("number_instr_needed: decision table incomplete")
 
 
+def rule_h(ctx, out):
+    """min_length_instrs counts every store of the specification once (shared with C04.i: store selections of count_sms_greedy and of
+    the greedy itself — taking byte stores, and no store twice)."""
+    from . import C04
+    C04.rule_i(ctx, out)
+
+
 RULES = [
+    ("C16.h", "the instruction count behind min_length takes every store exactly once", 4, rule_h),
     ("C16.g", "a revisited instruction is charged only when it must be duplicated", 4, rule_g),
     ("C16.f", "upper-bound start values admit every realizing sequence", 15, rule_f),
     ("C16.e", "store-selecting predicates cover MSTORE8", 8, rule_e),
